@@ -969,9 +969,18 @@ impl ABuilding {
 
     /// minimal .ctehexml around a BDL text
     pub fn ctehexml(&self, bdl: &str, systems_xml: &str) -> String {
+        self.ctehexml_ext(bdl, "", systems_xml)
+    }
+
+    pub fn space_names(&self) -> Vec<String> {
+        self.floors.iter().flat_map(|f| f.spaces.iter().map(|s| s.name.clone())).collect()
+    }
+
+    /// .ctehexml with extra tags inside <DatosGenerales> and system sections after the BDL text
+    pub fn ctehexml_ext(&self, bdl: &str, general_extra: &str, systems_xml: &str) -> String {
         let esc = |s: &str| s.replace('&', "&amp;").replace('<', "&lt;").replace('>', "&gt;");
         format!(
-            "<?xml version=\"1.0\"?>\n<CTE-HE-XML>\n    <DatosGenerales>\n        <tipoVivienda>{}</tipoVivienda>\n        <tipoDefinicion>{}</tipoDefinicion>\n        <zonaClimatica>{}</zonaClimatica>\n        <numViviendasBloque>1</numViviendasBloque>\n        <valorImpulsionAire>{:.2}</valorImpulsionAire>\n        <nomPro>{}</nomPro>\n        <pathArchivoMeteorologicoSeleccionado>C:\\ProgramasCTEyCEE\\DatosClimaticos\\GENERICOS\\zona{}.bin</pathArchivoMeteorologicoSeleccionado>\n        <ensayoPermeabilidad>{}</ensayoPermeabilidad>\n        <ValorN50Medido>{}</ValorN50Medido>\n    </DatosGenerales>\n    <EntradaGraficaLIDER><![CDATA[{}]]></EntradaGraficaLIDER>\n{}</CTE-HE-XML>\n",
+            "<?xml version=\"1.0\"?>\n<CTE-HE-XML>\n    <DatosGenerales>\n        <tipoVivienda>{}</tipoVivienda>\n        <tipoDefinicion>{}</tipoDefinicion>\n        <zonaClimatica>{}</zonaClimatica>\n        <numViviendasBloque>1</numViviendasBloque>\n        <valorImpulsionAire>{:.2}</valorImpulsionAire>\n        <nomPro>{}</nomPro>\n        <pathArchivoMeteorologicoSeleccionado>C:\\ProgramasCTEyCEE\\DatosClimaticos\\GENERICOS\\zona{}.bin</pathArchivoMeteorologicoSeleccionado>\n        <ensayoPermeabilidad>{}</ensayoPermeabilidad>\n        <ValorN50Medido>{}</ValorN50Medido>\n{}    </DatosGenerales>\n    <EntradaGraficaLIDER><![CDATA[{}]]></EntradaGraficaLIDER>\n{}</CTE-HE-XML>\n",
             if self.dwelling { "Unifamiliar" } else { "Terciario" },
             if self.new_building { "Nuevo" } else { "Existente" },
             self.zone,
@@ -980,6 +989,7 @@ impl ABuilding {
             self.zone,
             if self.n50_test.is_some() { "SI" } else { "NO" },
             self.n50_test.unwrap_or(0.0),
+            general_extra,
             bdl,
             systems_xml
         )
@@ -992,4 +1002,49 @@ pub fn polygon_block(name: &str, pts: &[(f32, f32)]) -> ABlock {
         b.attrs.push((format!("V{}", i + 1), AVal::P2(p.0, p.1)));
     }
     b
+}
+
+/// Re-spells some defined names (and every reference to them, identically) in forms a user can type
+/// into HULC: doubled blanks, blanks at the ends, a tab, brackets and dots, a very long name.
+/// Returns the list of (type, old, new).
+pub fn oddify_names(rng: &mut Rng, blocks: &mut [ABlock], types: &[&str], share: f64) -> Vec<(String, String, String)> {
+    let mut done: Vec<(String, String, String)> = vec![];
+    let cands: Vec<(String, String)> = blocks.iter().filter(|b| types.contains(&b.btype.as_str())).map(|b| (b.btype.clone(), b.name.clone())).collect();
+    for (ty, old) in cands {
+        if !rng.chance(share) || done.iter().any(|d| d.1 == old) {
+            continue;
+        }
+        let words: Vec<&str> = old.split(' ').collect();
+        let new = match rng.usize(6) {
+            0 => format!("{}  {}", words[0], words[1..].join(" ")).trim_end().to_string() + "  x",
+            1 => format!("{} ", old),
+            2 => format!(" {}", old),
+            3 => format!("{} (tipo  B).v2", old),
+            4 => format!("{}   {}", old, "muy largo ".repeat(6).trim_end()),
+            _ => old.replace(' ', "  "),
+        };
+        if new == old || blocks.iter().any(|b| b.name == new) {
+            continue;
+        }
+        for b in blocks.iter_mut() {
+            if b.name == old {
+                b.name = new.clone();
+            }
+            for (_, v) in b.attrs.iter_mut() {
+                match v {
+                    AVal::Str(s) if *s == old => *s = new.clone(),
+                    AVal::StrList(l) => {
+                        for s in l.iter_mut() {
+                            if *s == old {
+                                *s = new.clone();
+                            }
+                        }
+                    }
+                    _ => {}
+                }
+            }
+        }
+        done.push((ty, old, new));
+    }
+    done
 }
